@@ -203,9 +203,19 @@ def main():
     here = os.path.dirname(os.path.abspath(__file__))
     if here not in sys.path:
         sys.path.insert(0, here)
+    failed = []
     for path in sorted(glob.glob(os.path.join(here, "gen_c[0-9][0-9].py"))):
-        mod = importlib.import_module(os.path.basename(path)[:-3])
-        mod.main()
+        name = os.path.basename(path)[:-3]
+        try:
+            mod = importlib.import_module(name)
+            mod.main()
+        except Exception as e:       # fail-closed per property: the check of that property reports a broken tie
+            import traceback
+            failed.append(name)
+            print("TRANSLATOR-FAILED %s: %s: %s" % (name, type(e).__name__, str(e)[:300]))
+            traceback.print_exc()
+    if failed:
+        print("TRANSLATOR-FAILED-LIST " + " ".join(failed))
 
 
 if __name__ == "__main__":
